@@ -206,7 +206,7 @@ def dense_graph(rnd, inst_prop=M.RDF_TYPE):
     return T
 
 
-def schema_graph(rnd, bnodes=True, inverse_safe=False):
+def schema_graph(rnd, bnodes=True, inverse_safe=False, typed_classes=True):
     """schema first: per (class, property) a range = literal mix | untyped IRI | untyped blank | one single-typed
     class, then instances with arbitrary presence / cardinality.  Membership in C03's strict domain is re-decided
     by the specification (SchemaConsistent) on the logged graph."""
@@ -256,7 +256,7 @@ def schema_graph(rnd, bnodes=True, inverse_safe=False):
                     for _ in range(rnd.choice([1, 1, 2])):
                         T.add((n, p, _lit(rnd)))
     # the classes themselves described in the data (typed with a meta-class): with all-classes mode they are instances too
-    if rnd.random() < .3:
+    if typed_classes and rnd.random() < .3:
         for c in classes:
             T.add((M.iri(c), M.RDF_TYPE, M.iri(EX + "Kind")))
     # a node may link to itself: such a triple is an outgoing and an incoming arc of the same node
